@@ -1,10 +1,16 @@
 package c09
 
 import (
+	"fmt"
+	"sort"
+	"sync"
 	"testing"
+	"time"
 
+	"verifharness/inproc"
 	"verifharness/kit"
 	"verifharness/prog"
+	"verifharness/respx"
 )
 
 func TestMain(m *testing.M) { kit.Main(m, "C09") }
@@ -14,5 +20,178 @@ func TestPrograms(t *testing.T) {
 }
 
 func TestReplay(t *testing.T) {
-	kit.Replay[prog.Program](t, map[string]func(kit.RawCase) kit.Outcome{"prog": kit.ReplaySub(Exec)})
+	kit.Replay[prog.Program](t, map[string]func(kit.RawCase) kit.Outcome{"prog": kit.ReplaySub(Exec), "block": kit.ReplaySub(execBlock)})
+}
+
+// execBlock: every pushed element goes to exactly one popper or stays in its list; a popper whose
+// key gets an element returns promptly (the implementation polls every 100 ms; bound 1.5 s after
+// availability), a popper that gets nothing returns nil no earlier than its timeout and no later than
+// timeout + 1.5 s. A control goroutine measures scheduling jitter; a jittery run is inconclusive.
+func execBlock(c BlockCase) kit.Outcome {
+	db := inproc.New(16, 0)
+	type result struct {
+		val      respx.Value
+		bad      string
+		took     time.Duration
+		returned time.Time
+	}
+	results := make([]result, len(c.Poppers))
+	var wg sync.WaitGroup
+	start := time.Now()
+	for i, p := range c.Poppers {
+		wg.Add(1)
+		go func(i int, p Popper) {
+			defer wg.Done()
+			name := "BRPOP"
+			if p.Left {
+				name = "BLPOP"
+			}
+			args := append([]string{name}, p.Keys...)
+			args = append(args, fmt.Sprint(p.Timeout))
+			t0 := time.Now()
+			r := db.Do(kit.MkCmd(args...).Bytes())
+			results[i] = result{val: r.Val, took: time.Since(t0), returned: time.Now()}
+			if r.Panic != "" {
+				results[i].bad = "panicked: " + r.Panic
+			} else if r.DecErr != nil {
+				results[i].bad = fmt.Sprintf("malformed reply %q", r.Raw)
+			}
+		}(i, p)
+	}
+	// jitter probe
+	maxJitter := time.Duration(0)
+	stopJ := make(chan struct{})
+	var jwg sync.WaitGroup
+	jwg.Add(1)
+	go func() {
+		defer jwg.Done()
+		for {
+			select {
+			case <-stopJ:
+				return
+			default:
+			}
+			t0 := time.Now()
+			time.Sleep(10 * time.Millisecond)
+			if d := time.Since(t0) - 10*time.Millisecond; d > maxJitter {
+				maxJitter = d
+			}
+		}
+	}()
+	pushed := map[string]bool{}
+	var pushTimes []time.Time
+	sortedPushes := append([]Push{}, c.Pushes...)
+	sort.SliceStable(sortedPushes, func(i, j int) bool { return sortedPushes[i].AtMs < sortedPushes[j].AtMs })
+	seq := 0
+	for _, pu := range sortedPushes {
+		if d := time.Until(start.Add(time.Duration(pu.AtMs) * time.Millisecond)); d > 0 {
+			time.Sleep(d)
+		}
+		args := []string{"RPUSH", pu.Key}
+		for j := 0; j < pu.N; j++ {
+			e := fmt.Sprintf("e%d", seq)
+			seq++
+			args = append(args, e)
+			pushed[e] = true
+		}
+		if r := db.Do(kit.MkCmd(args...).Bytes()); r.Panic != "" {
+			close(stopJ)
+			return kit.Outcome{Fail: "RPUSH panicked: " + r.Panic}
+		}
+		pushTimes = append(pushTimes, time.Now())
+	}
+	done := make(chan struct{})
+	go func() { wg.Wait(); close(done) }()
+	o := kit.Outcome{}
+	select {
+	case <-done:
+	case <-time.After(8 * time.Second):
+		close(stopJ)
+		o.Fail = "a blocking pop with a timeout of at most 2 s did not return within 8 s"
+		return o
+	}
+	close(stopJ)
+	jwg.Wait()
+	if maxJitter > 300*time.Millisecond {
+		return kit.Outcome{Inconclusive: true, Labels: []string{"scheduling-jitter"}}
+	}
+	got := map[string]int{}
+	served := 0
+	for i, r := range results {
+		p := c.Poppers[i]
+		if r.bad != "" {
+			o.Fail = fmt.Sprintf("popper %d: %s", i, r.bad)
+			return o
+		}
+		if (r.val.Kind == respx.Bulk || r.val.Kind == respx.Array) && r.val.Null {
+			if r.took < time.Duration(p.Timeout)*time.Second-50*time.Millisecond {
+				o.Fail = fmt.Sprintf("popper %d returned nil after %v, before its %d s timeout", i, r.took.Round(time.Millisecond), p.Timeout)
+				return o
+			}
+			if r.took > time.Duration(p.Timeout)*time.Second+1500*time.Millisecond {
+				o.Fail = fmt.Sprintf("popper %d returned nil only after %v (timeout %d s)", i, r.took.Round(time.Millisecond), p.Timeout)
+				return o
+			}
+			continue
+		}
+		if r.val.Kind != respx.Array || len(r.val.Arr) != 2 {
+			o.Fail = fmt.Sprintf("popper %d: reply %s is neither nil nor [key, element]", i, r.val.String())
+			return o
+		}
+		k, e := string(r.val.Arr[0].Str), string(r.val.Arr[1].Str)
+		okKey := false
+		for _, pk := range p.Keys {
+			if pk == k {
+				okKey = true
+			}
+		}
+		if !okKey || !pushed[e] {
+			o.Fail = fmt.Sprintf("popper %d (keys %v) received [%q %q]: not one of its keys / never pushed", i, p.Keys, k, e)
+			return o
+		}
+		got[e]++
+		served++
+		if len(pushTimes) > 0 && r.took > 0 && r.returned.Sub(pushTimes[0]) > 0 && r.took > 100*time.Millisecond {
+			o.NonTrivial = true // it was actually blocked when its element arrived
+		}
+	}
+	// what is left in the lists
+	for _, k := range []string{"b1", "b2"} {
+		r := db.Do(kit.MkCmd("LRANGE", k, "0", "-1").Bytes())
+		for _, e := range r.Val.Arr {
+			got[string(e.Str)]++
+		}
+		ex := db.Do(kit.MkCmd("EXISTS", k).Bytes())
+		if len(r.Val.Arr) == 0 && ex.Val.Int != 0 {
+			o.Fail = fmt.Sprintf("list %q is empty after the pops but still exists", k)
+			return o
+		}
+	}
+	for e := range pushed {
+		if got[e] != 1 {
+			o.Fail = fmt.Sprintf("element %q was delivered/kept %d times (each pushed element must go to exactly one popper or stay in its list)", e, got[e])
+			return o
+		}
+	}
+	// prompt service: an element that stayed in a list while a popper waiting on that list timed out
+	for i, r := range results {
+		if !((r.val.Kind == respx.Bulk || r.val.Kind == respx.Array) && r.val.Null) {
+			continue
+		}
+		for _, k := range c.Poppers[i].Keys {
+			lr := db.Do(kit.MkCmd("LLEN", k).Bytes())
+			if lr.Val.Int > 0 && len(pushTimes) > 0 && pushTimes[len(pushTimes)-1].Before(r.returned.Add(-1500*time.Millisecond)) {
+				o.Fail = fmt.Sprintf("popper %d timed out with nil although list %q held an element for more than 1.5 s before it returned", i, k)
+				return o
+			}
+		}
+	}
+	if err := db.CheckAll(); err != nil {
+		o.Fail = "structural check: " + err.Error()
+	}
+	return o
+}
+
+func TestBlocking(t *testing.T) {
+	kit.Check(t, kit.Spec[BlockCase]{Sub: "block", Quick: 4, Thorough: 60, Gen: GenBlock, Exec: execBlock, NoShrink: true})
 }
